@@ -202,3 +202,16 @@ if _os.path.isdir(_notes):
             if 'CHECKS["%s"]' % _m.group(1) in _blk:
                 exec(_blk)
                 break
+
+# ---- texts updated by the process-layer proof notes (notes/S*.md: ```python blocks that assign CHECKS["Cnn"]["text"]) ----
+if _os.path.isdir(_notes):
+    for _f in sorted(_os.listdir(_notes)):
+        if not _re.match(r"S\d+\.md$", _f):
+            continue
+        _t = open(_os.path.join(_notes, _f)).read()
+        for _blk in _re.findall(r"```python\n(.*?)```", _t, flags=_re.S):
+            if 'CHECKS["' in _blk:
+                try:
+                    exec(_blk)
+                except Exception as _ex:      # a malformed note must not break the manifest
+                    print("notes/%s: block ignored: %s" % (_f, _ex))
